@@ -434,7 +434,9 @@ class Task(object):
         """
         if isinstance(value, valid[0]):
             return
-        if value in valid[1]:
+        # `in` compares using `==`, do not take 1 as True (or 0 as False)
+        if any(value is v or (value == v and type(value) is type(v))
+               for v in valid[1]):
             return
 
         # input value didnt match any valid type/value, raise exception
